@@ -41,6 +41,11 @@ OPS = [
     ("other:sum0", lambda x: x.sum(0)),
     ("other:reshape", lambda x: x.reshape(-1)),
     ("other:index", lambda x: x[-1]),
+    ("other:mul", lambda x: x * 3),
+    ("other:slice", lambda x: x[1:]),
+    ("other:max", lambda x: x.max().reshape(1)),
+    ("other:numpy", lambda x: torch.from_numpy(x.numpy().copy())),
+    ("other:cat", lambda x: torch.cat([x, x], 0)),
     ("other:float", None),  # handled as to_other
 ]
 
